@@ -266,7 +266,7 @@ class PFlow(BaseRoutine):
         self.exec_time = t1 - t0
 
         if not self.converged:
-            if abs(self.mis[-1] - self.mis[-2]) < self.config.tol:
+            if len(self.mis) > 1 and abs(self.mis[-1] - self.mis[-2]) < self.config.tol:
                 max_idx = np.argmax(np.abs(system.dae.xy))
                 name = system.dae.xy_name[max_idx]
                 logger.error('Mismatch is not correctable possibly due to large load-generation imbalance.')
@@ -367,6 +367,8 @@ class PFlow(BaseRoutine):
             Convergence status
         """
 
+        from scipy.optimize import NoConvergence  # NOQA
+
         system = self.system
         v0 = system.dae.xy
 
@@ -379,6 +381,11 @@ class PFlow(BaseRoutine):
         except ValueError as e:
             logger.error('Mismatch is not correctable. Equations may be unsolvable.')
             logger.error(e)
+            self.converged = False
+
+        except NoConvergence:
+            # iteration limit of the SciPy solver reached
+            logger.error('Newton-Krylov method did not converge.')
             self.converged = False
 
         return self.converged
